@@ -225,11 +225,10 @@ def adjacent_ranges(rng):
     return t1 + sep(rng) + t2, s1 + s2
 
 def _lit(k, v):
-    # (a quote and a backslash need their escape: "'\\'" alone is no char literal - the thorough tier
-    #  met a range ending on the backslash, a false alarm of the generator)
-    if k == "c":
-        return "'\\''" if v == 39 else "'\\\\'" if v == 92 else "'%c'" % v
-    return "%d%s" % (v, "h" if k == "h" else "")
+    # chars through _clit: a range that ends on the backslash or the quote is written with the escape,
+    # not in the mistyped form (quote backslash quote), which directly in front of "]" is an unfinished escape
+    # (a false alarm of the generator that the thorough tier met)
+    return _clit(v) if k == "c" else "%d%s" % (v, "h" if k == "h" else "")
 
 def rich_array(rng, depth=0):
     """an array as the manual's grammar allows it: plain elements of one type; repetitions and
@@ -404,15 +403,10 @@ REP_COUNTS = [10, 20, 30, 100, 101, 105, 110, 5, 6, 7, 8, 9, 11, 12, 99, 112]
 def rep_count(rng, lo, hi):
     return rng.choice(REP_COUNTS) if rng.random() < 0.4 else rng.randint(lo, hi)
 
-_impl_only = False
-
 def open_typed_array(rng):
     """an array that ends in an open range written in the explicit form "a b ..." over booleans
     (the step of an alternation is 'true'), floats or integers; nested, repeated or plain"""
-    global _impl_only
     k = rng.choice("BBBfi")
-    if k in "Bf":
-        _impl_only = True       # the scan model has no boolean / float steps: judged by the Spec oracle only (kind xs)
     if k == "B":
         a, b = rng.choice([True, False]), rng.choice([True, False])
         lit = lambda v: "true" if v else "false"
@@ -437,9 +431,94 @@ def open_typed_array(rng):
         return "%dx%s" % (m, text), ["R:%d:0" % m] + slots
     return text, slots
 
+def _flit(rng, k, x):
+    """a float / double literal for a value with few binary digits"""
+    s = repr(float(x))
+    return s + "d" if k == "d" else s + rng.choice(["", "", "f"])
+
+def _fsub(k, x, y):
+    """x - y in the format k (operands are values of the format: the double difference is exact
+    or rounds once more without harm - 53 >= 2 * 24 + 2)"""
+    return struct.unpack("<f", struct.pack("<f", x - y))[0] if k == "f" else x - y
+
+def float_range(rng):
+    """ranges over floats and doubles: "a b ... c" (step b - a), "b ... c" (unit step, up or down) behind
+    a value of another type, a range directly behind a range (its "a" is the last value of the first
+    one), open ranges behind further elements; at top level, in an array, nested, repeated.  The step
+    is a slot of the range's type.  Values: few binary digits (all arithmetic exact) or decimal tenths
+    (0.1 0.2 ... 0.9: the step is the rounded difference of the rounded literals, the count is what the
+    text says - the code finds it with its rounding rule (>= 0.999) and its tolerance 0.001)."""
+    k = rng.choice("fd")
+    dec = rng.random() < 0.35
+    if dec:
+        def lit(v):
+            t = "%s%d.%d" % (("-" if v < 0 else ""), abs(v) // 10, abs(v) % 10)
+            return t + "d" if k == "d" else t + rng.choice(["", "", "f"])
+        def num(v):
+            x = float("%s%d.%d" % (("-" if v < 0 else ""), abs(v) // 10, abs(v) % 10))
+            return struct.unpack("<f", struct.pack("<f", x))[0] if k == "f" else x
+        x = rng.choice([1, 3, -7, 22, 0, 9, -15])
+        d = rng.choice([1, 2, -3, 7, -1, 11])
+        unit = 10
+    else:
+        lit = lambda v: _flit(rng, k, v)
+        num = lambda v: float(v)
+        x = rng.choice([0.5, 1.5, -2.0, 8.0, 0.25, -7.75, 100.0, 0.0])
+        d = rng.choice([0.5, 1.0, -0.25, 2.0, -1.5, 0.125, -1.0])
+        unit = 1.0
+    sl = (lambda v: f32(num(v))) if k == "f" else (lambda v: f64(num(v)))
+    sln = f32 if k == "f" else f64
+    n = rng.randint(2, 6)
+    in_array = rng.random() < 0.55
+    form = rng.random()
+    if form < 0.3:                                 # "b ... c": unit step, no usable neighbour
+        sgn = rng.choice([1, -1])
+        b, c = x, x + sgn * unit * (n - 1)
+        if in_array and rng.random() < 0.5:
+            parts, slots = [], []
+        else:
+            parts, slots = rng.choice([(["nil"], ["N"]), (["true"], ["T"]), (["7"], ["i:7"]), (['"ab"'], ["s:6162"])])
+            parts, slots = list(parts), list(slots)
+        parts += [lit(b), "...", lit(c)]
+        slots += ["R:%d:1" % n, sln(float(sgn)), sl(b)]
+        d = sgn * unit
+    else:                                          # "a b ... c"
+        a, b = x, x + d
+        c = b + d * (n - 1)
+        parts = [lit(a), lit(b), "...", lit(c)]
+        slots = [sl(a), "R:%d:1" % n, sln(_fsub(k, num(b), num(a))), sl(b)]
+    if form >= 0.7 and not dec:                    # a second range directly behind: "... c e ... g"
+        d2 = rng.choice([0.5, -0.5, 2.0, 0.25, -3.0])
+        e = c + d2
+        if in_array and rng.random() < 0.5:        # open: ends the array
+            parts += [lit(e), "..."]
+            slots += ["R:0:1", sl(d2), sl(e)]
+        else:
+            n2 = rng.randint(2, 5)
+            parts += [lit(e), "...", lit(e + d2 * (n2 - 1))]
+            slots += ["R:%d:1" % n2, sl(d2), sl(e)]
+    elif in_array and form >= 0.5:                 # further elements, then the open range
+        e = c + d; g = e + d
+        parts += [lit(e), lit(g), "..."]
+        slots += [sl(e), "R:0:1", sln(_fsub(k, num(g), num(e))), sl(g)]
+    if not in_array:
+        return sep(rng, False).join(parts), slots
+    text = "[" + rng.choice(["", " "]) + sep(rng, False).join(parts) + rng.choice(["", " "]) + "]"
+    slots = ["a:%d:%d" % (ord(k), len(slots))] + slots
+    q = rng.random()
+    if q < 0.25:
+        return "[" + text + "]", ["a:97:%d" % len(slots)] + slots
+    if q < 0.45:
+        m = rep_count(rng, 2, 4)
+        return "%dx%s" % (m, text), ["R:%d:0" % m] + slots
+    return text, slots
+
 def structured(rng):
-    if rng.random() < 0.15:
+    q = rng.random()
+    if q < 0.15:
         return open_typed_array(rng)
+    if q < 0.3:
+        return float_range(rng)
     """ranges, repetitions, arrays: (text, slots)"""
     q = rng.random()
     if q < 0.15:
@@ -495,8 +574,6 @@ def gen(rng, tier, dist):
         dist[k] = dist.get(k, 0) + 1
     for _ in range(n):
         nw = rng.choice([1, 1, 2, 2, 3, 4, 6, 10])
-        global _impl_only
-        _impl_only = False
         text, slots, kind = "", [], "sc"
         prev_t = ""
         lead = rng.random()
@@ -536,8 +613,6 @@ def gen(rng, tier, dist):
             if j + 1 < nw or rng.random() < 0.3:
                 text += sep(rng)
         bump("words=%d" % nw)
-        if _impl_only and kind == "sc":
-            kind = "xs"
         bump(kind)
         out.append("%s %s %s" % (kind, text.encode("latin-1").hex(), ";".join(slots)))
     return out
@@ -592,7 +667,48 @@ def _array_ends(slots):
                 ends.add(h + n)
     return ends
 
+def _fl_val(tok):
+    """exact value (Fraction) of a slot f:<hex> / d:<hex>"""
+    from fractions import Fraction
+    if tok.startswith("f:"):
+        return Fraction(struct.unpack("<f", struct.pack("<I", int(tok[2:], 16)))[0])
+    return Fraction(struct.unpack("<d", struct.pack("<Q", int(tok[2:], 16)))[0])
+
+def _fl_fits(k, q):
+    """is the rational q a value of the format k (float / double)?"""
+    try:
+        x = float(q)
+        if k == "f":
+            x = struct.unpack("<f", struct.pack("<f", x))[0]
+    except OverflowError:
+        return False
+    from fractions import Fraction
+    return Fraction(x) == q
+
+def _inexact_float_range(slots):
+    """a range over floats / doubles among the scanned slots whose values start + i * step (and the
+    product i * step) are not all values of the format, or whose left neighbour a (same type, directly in
+    front) has a + step != start: the arithmetic the printer and the scanner do on it rounds"""
+    for j, t in enumerate(slots):
+        m = re.match(r"R:(-?\d+):1$", t)
+        if not m or j + 2 >= len(slots) or slots[j + 1][:2] not in ("f:", "d:") or slots[j + 2][:2] != slots[j + 1][:2]:
+            continue
+        k = slots[j + 1][0]
+        dl, st = _fl_val(slots[j + 1]), _fl_val(slots[j + 2])
+        n = int(m.group(1))
+        for i in range(1, max(n, 3)):
+            if not _fl_fits(k, i * dl) or not _fl_fits(k, st + i * dl):
+                return True
+        if j > 0 and slots[j - 1][:2] == k + ":" and _fl_val(slots[j - 1]) + dl != st:
+            return True
+    return False
+
 def classify(case, impl, failure):
+    # float-range-inexact-step: the scanned values hold a range over floats / doubles on which the
+    # range arithmetic rounds (0.1 0.2 ... 0.5); only the failure kind reprint is classified
+    if failure.startswith("reprint: ") and "=" in impl:
+        if _inexact_float_range(fields(impl).get("V", "-").split(";")):
+            return "float-range-inexact-step"
     """range-after-array: a range "b ... c" directly behind an array whose last slot has b's type.  The
     checker counts it with the unit step, the scanner takes the array's last value for the left neighbour:
     the scanned slots differ from the denotation in that range's count and step ONLY (failure kind
